@@ -280,6 +280,29 @@ def check_case(case, acc):
         drop = [c for c in cols if c not in used and c not in f]
         if drop:
             variants.append((f"without unused columns {drop}", D.drop(columns=drop), None, True))
+    if fam == "columns" and f not in ENVONLY:
+        # a USED label occurring twice with different contents: whatever the library does with such a frame (it refuses it),
+        # it does the same for every order of the two columns
+        outcomes = []
+        for dup in ("x", "f", "g"):
+            if dup not in f:
+                continue
+            other = (D[dup] * 2 + 1) if dup == "x" else D[dup].iloc[::-1].reset_index(drop=True)
+            base_cols = [c for c in D.columns if c != dup]
+            for first, second in ((D[dup], other), (other, D[dup])):
+                d2 = pd.concat([first.rename(dup), D[base_cols], second.rename(dup)], axis=1)
+                acc.calls += 1
+                try:
+                    outcomes.append((dup, "design", snapshot(build(f, d2), probe)))
+                except Exception as e:
+                    outcomes.append((dup, "refused", type(e).__name__))
+        for (d1, k1, o1), (d2_, k2, o2) in zip(outcomes[::2], outcomes[1::2]):
+            if k1 != k2:
+                problems.append(("no-effect", f"two columns labelled {d1!r}: {k1} in one order of the two, {k2} in the other"))
+            elif k1 == "design":
+                tmp = []
+                compare(o1, o2, None, True, f"two columns labelled {d1!r} in the other order", tmp)
+                problems.extend(tmp[:1])
     for what, d2, perm, exact in variants:
         acc.calls += 1
         acc.traces += 1
